@@ -247,6 +247,73 @@ func (f *FrameHeader) WriteTo(w *bufio.Writer) (wb int64, err error) {
 	return wb, err
 }
 
+// writeHeaderBlockTo writes a HEADERS frame the way WriteTo does, except that a
+// header block longer than max, the largest frame the peer accepts, goes out as
+// a HEADERS frame followed by as many CONTINUATION frames as it takes. The
+// caller must let nothing else onto the connection in between, which holds for
+// a single call from the one goroutine that writes (RFC 7540 4.2, 6.10).
+func (f *FrameHeader) writeHeaderBlockTo(w *bufio.Writer, max int) (wb int64, err error) {
+	f.fr.Serialize(f)
+
+	// Padding and the priority fields belong to the first frame as a whole and
+	// are never produced for a block of this size; such a frame is left alone.
+	if max <= 0 || len(f.payload) <= max || f.kind != FrameHeaders ||
+		f.flags.Has(FlagPadded) || f.flags.Has(FlagPriority) {
+		f.length = len(f.payload)
+		f.parseHeader(f.rawHeader[:])
+
+		n, err := w.Write(f.rawHeader[:])
+		if err == nil {
+			wb += int64(n)
+
+			n, err = w.Write(f.payload)
+			wb += int64(n)
+		}
+
+		return wb, err
+	}
+
+	rest := f.payload
+	kind, flags := f.kind, f.flags
+	endHeaders := flags & FlagEndHeaders
+
+	defer func() {
+		f.kind, f.flags, f.length = kind, flags, len(f.payload)
+	}()
+
+	f.flags = flags &^ FlagEndHeaders
+
+	for len(rest) > 0 && err == nil {
+		part := rest
+		if len(part) > max {
+			part = part[:max]
+		}
+
+		rest = rest[len(part):]
+
+		if len(rest) == 0 {
+			f.flags |= endHeaders
+		}
+
+		f.length = len(part)
+		f.parseHeader(f.rawHeader[:])
+
+		var n int
+
+		if n, err = w.Write(f.rawHeader[:]); err == nil {
+			wb += int64(n)
+
+			n, err = w.Write(part)
+			wb += int64(n)
+		}
+
+		// Only the first frame is a HEADERS frame and only it ends the stream.
+		f.kind, f.flags = FrameContinuation, 0
+	}
+
+	return wb, err
+}
+
 func (f *FrameHeader) Body() Frame {
 	return f.fr
 }
